@@ -28,13 +28,30 @@ def load_known():
     return json.load(open(p))
 
 
+def get_subs(mod, tier):
+    """Sub-harnesses of a tier.  The thorough tier is the quick tier plus a
+    deterministic 1-in-k sample of the module's deeper worlds, capped by
+    THOROUGH_EXTRA (so that it stays within tens of minutes on 16 cores)."""
+    subs = mod.subharnesses(tier)
+    cap = getattr(mod, 'THOROUGH_EXTRA', None)
+    if tier != 'thorough' or cap is None:
+        return subs
+    quick = mod.subharnesses('quick')
+    qnames = set(n for n, _p in quick)
+    extra = [s for s in subs if s[0] not in qnames]
+    if len(extra) > cap:
+        step = -(-len(extra) // cap)
+        extra = extra[::step]
+    return quick + extra
+
+
 def _job(args):
     modname, idx, tier, twin = args
     t0 = time.monotonic()
     try:
         import symx
         mod = importlib.import_module(modname)
-        subs = mod.subharnesses(tier)
+        subs = get_subs(mod, tier)
         name, params = subs[idx]
         kind = params.get('engine', 'symx') if isinstance(params, dict) else 'symx'
         if kind == 'custom':
@@ -154,7 +171,7 @@ def main(argv=None):
     seed = int(os.environ.get('VERIF_SEED', '0') or 0)
     t0 = time.monotonic()
     mod = importlib.import_module(modname)
-    subs = mod.subharnesses(tier)
+    subs = get_subs(mod, tier)
     idxs = [i for i, (n, _p) in enumerate(subs)
             if not a.only or a.only in n]
     # order longest-first if the module gives weights; seed rotates order
